@@ -86,8 +86,11 @@ func genKeyHistory(r *sim.Rand) []keyEvent {
 	t := uint64(0)
 	cur := []int{}
 	n := r.Range(2, 5)
+	early := r.Chance(0.4) // the first key change happens before the repository has any edit clock
 	for i := 0; i < n; i++ {
-		t += uint64(r.Range(5, 12))
+		if !(early && i == 0) {
+			t += uint64(r.Range(5, 12))
+		}
 		switch {
 		case len(cur) == 0 || r.Chance(0.4): // add
 			cand := r.Intn(3)
@@ -140,6 +143,10 @@ func (e *Engine) genSigCases(p *sim.Plan, r *sim.Rand) {
 	// probe times: around every change
 	times := map[uint64]bool{1: true}
 	for _, ev := range evs {
+		if ev.T == 0 {
+			times[2] = true
+			continue
+		}
 		times[ev.T-1] = true
 		times[ev.T] = true
 		times[ev.T+1] = true
@@ -225,10 +232,14 @@ func (e *Engine) sigCase(p *sim.Plan, st *sim.Step, res *sim.RunResult, keep boo
 	for i, ev := range evs {
 		sim.SetRandStep(uint64(310 + i))
 		H.Wall += 1000
-		// the version records the clocks at its creation: bring the edit clock to ev.T
-		if err := H.Sim.Witness("bugs-edit", lamportTime(ev.T)); err != nil {
-			res.HarnessErr = err.Error()
-			return nil, "skipped"
+		// the version records the clocks at its creation: bring the edit clock to ev.T. A change
+		// at time 0 is made before the repository has any clock: the version then carries no
+		// time for it and counts from the previous version's time (0).
+		if ev.T > 0 {
+			if err := H.Sim.Witness("bugs-edit", lamportTime(ev.T)); err != nil {
+				res.HarnessErr = err.Error()
+				return nil, "skipped"
+			}
 		}
 		ks := ev.Keys
 		err := author.Mutate(H.Sim, func(m *identity.Mutator) {
@@ -254,6 +265,10 @@ func (e *Engine) sigCase(p *sim.Plan, st *sim.Step, res *sim.RunResult, keep boo
 		return nil, "skipped"
 	}
 	for i, ev := range evs {
+		if _, has := chain[i+1].Times["bugs-edit"]; ev.T == 0 && !has {
+			res.Probes["key_version_without_clock_entry"]++
+			continue
+		}
 		if chain[i+1].Times["bugs-edit"] != ev.T {
 			res.HarnessErr = fmt.Sprintf("version %d has bugs-edit %d, wanted %d", i+1, chain[i+1].Times["bugs-edit"], ev.T)
 			return nil, "skipped"
@@ -471,8 +486,20 @@ func (e *Engine) sigHistoryCase(p *sim.Plan, st *sim.Step, res *sim.RunResult, c
 	var times []uint64
 	times = append(times, 1)
 	for _, ev := range evs {
+		if ev.T == 0 {
+			times = append(times, 3) // the key set of time 0 is in force at any later time
+			continue
+		}
 		times = append(times, ev.T, ev.T+2)
 	}
+	sortU(times)
+	uniq := times[:1]
+	for _, t := range times[1:] {
+		if t != uniq[len(uniq)-1] {
+			uniq = append(uniq, t)
+		}
+	}
+	times = uniq
 	stalePos := -1
 	if st.K == "history-one-stale-key" {
 		// find a commit whose time has keys in force and for which some pool key is NOT in force
